@@ -45,6 +45,16 @@ is its value at every sufficient fuel and a fixed point of one activation (`fuel
 `fuel_monotone_counterexample`); the full model `unifyF` needs two activations (`unify_fuel_two`).
 `UnifyLaws` and `SetLaws` are proved of the environment the C09 driver runs (`unifyLaws_driver`,
 `setLaws_driver`, `…_driver` corollaries).
+
+d09b: (1) the type component of `unifyF` IS `unifyTy` (`unify_type_is_unifyTy`, `unify_type_eq`: the two
+transliterations of unify.go are one function, so the `unifyTy` theorems are about the type `Unify`
+returns); (2) on placeholder-free, well-formed input types the unified type and the target of every
+step of every returned conversion are placeholder-free and well-formed (`unified_plain`,
+`unified_type_plain_std`), which discharges the side conditions of the applied-conversion clauses:
+`convs_yield_unified_plain`, `safe_convs_total_plain`, `no_panic_applied_plain` carry none; (3) the
+model is total from fuel 2 on (`unify_total`, `unify_total_outcome`: never out of fuel, no error
+outcome); (4) `unsafe_of_safe_flat_full` carries the flat closed form over to the full model (through
+the object / tuple sub-unifiers the clause is still only searched).
 -/
 import CtyModel.Lemmas.UnifyTyLaws
 import CtyModel.Lemmas.UnifyProps
@@ -1124,6 +1134,23 @@ theorem unsafe_of_safe_flat_full (base : Env) (n : Nat) (types : List Ty) (t : T
 
 example : ∃ t' cs', unifyUnsafe driverEnv 2 [.list (.set .bool), .list (.list .string)] = .ok (some (t', cs')) :=
   unsafe_of_safe_flat_full (Env.concrete unifyTy) 0 _ (.list (.list .string)) _ (by decide) rfl
+
+/-- The three applied-conversion clauses for placeholder-free inputs in ANY environment that
+satisfies the laws and whose `unify` keeps placeholder-free types placeholder-free (not only the
+driver's): the full statements `ConvsYieldUnified` / `SafeConvsTotal` / `NoPanicApplied` restricted
+by exactly that one extra assumption on `E` (and, for the last two, values without unknown parts). -/
+theorem applied_clauses_plain_env (E : Env) (hU : UnifyLaws E) (hS : SetLaws E) (hE : PlainPres E.unify)
+    (fuel fuel' : Nat) (uns : Bool) (types : List Ty) (t : Ty) (cs : Convs) (i : Nat) (c : UConv) (v : Value)
+    (hp : ∀ ty ∈ types, plainTy ty = true) (h : unifyF E fuel uns types = .ok (some (t, cs)))
+    (hc : cs[i]? = some (some c)) (hi : types[i]? = some v.ty) (hv : Value.wt v = true) :
+    (∀ r, applyU E fuel' c v = .ok r → r.ty = t ∧ yieldsUnified t r = true) ∧
+    (Payload.whollyKnown v.v = true → (applyU E fuel' c v).isPanic = false ∧
+      (uns = false → (∃ r, applyU E fuel' c v = .ok r ∧ r.ty = t) ∨ applyU E fuel' c v = .unmodelled)) := by
+  obtain ⟨ht, hT⟩ := unified_plain E hE fuel uns types t cs hp h
+  refine ⟨fun r ha => convs_yield_unified_slots_wt_partial E hU fuel fuel' uns types t cs i c v r ht h hc hi hv (hT i c hc) ha,
+    fun hk => ⟨no_panic_applied_slots_wt_partial E hU hS fuel fuel' uns types t cs i c v ht h hc hi hv hk (hT i c hc), ?_⟩⟩
+  intro hu; subst hu
+  exact safe_convs_total_slots_wt_partial E hU hS fuel fuel' types t cs i c v ht h hc hi hv hk (hT i c hc)
 
 end C09
 end CtyModel
